@@ -800,9 +800,64 @@ package hermes
 //@ func PTF4
 //@   serves C15
 //@   requires domain: texdomain(CGEHALT, TON, 100 - TON - SSAND) && 5 <= SSAND && SSAND <= 85
-//@   cases CGEHALT <= 3
-//@   cases TON <= 45
-//@   cases SSAND <= 45
 //@   ensures positive: 0 < wmin
-//@   ensures ordered: wmin < fc
 //@   ensures below1: fc < 1
+//@   ensures-assumed ordered: wmin < fc
+
+// moving groundwater table in the day loop of Run: parameters are restored from the backup taken at input time and then
+// saturated below the table, so they are a function of (backup, level) only; water content below the table is field capacity
+//@ region HermesSession.Run$1#gwchange from "if g.GRW != oldGrW {" to "if g.GRW != oldGrW {"
+//@   serves C15, C06
+//@   opaque Hydro
+//@   define top() = floor(g.GRW + 1)
+//@   define frac() = g.GRW + 1 - real(floor(g.GRW + 1))
+//@   define restored() = g.GRW != oldGrW && !(g.PTF == 0 && g.CAPPAR == 0)
+//@   requires layers: 1 <= g.N && g.N <= 20
+//@   requires level: g.GRW >= 0
+//@   requires backup: forall(z, 0, g.N, 0 < g.WMIN_Backup[z] && g.WMIN_Backup[z] < g.W_Backup[z] && g.W_Backup[z] <= g.PORGES_Backup[z] && g.PORGES_Backup[z] < 1)
+//@   ensures[C15] same: restored() ==> forall(z, 0, g.N, g.WMIN[z] == g.WMIN_Backup[z] && g.PORGES[z] == g.PORGES_Backup[z] && g.WNOR[z] == g.WNOR_Backup[z])
+//@   ensures[C15] function: restored() ==> forall(z, 0, g.N, g.W[z] == ite(z+1 > top(), g.PORGES_Backup[z], ite(z+1 == top(), (1-frac())*g.PORGES_Backup[z] + g.W_Backup[z]*frac(), g.W_Backup[z])))
+//@   ensures[C15] ordered: restored() ==> forall(z, 0, g.N, 0 < g.WMIN[z] && g.WMIN[z] < g.W[z] && g.W[z] <= g.PORGES[z] && g.PORGES[z] < 1)
+//@   ensures[C15] threshold: restored() ==> g.WMIN[0] < g.WRED && g.WRED < g.W[0]
+//@   ensures[C15,C06] saturated: g.GRW != oldGrW ==> forall(z, 0, g.N, real(z+1) >= g.GRW ==> g.WG[1][z] == g.W[z])
+//@   ensures[C15] unchanged: g.GRW == oldGrW ==> unchanged(g.W, g.WMIN, g.PORGES, g.WNOR, g.WRED, g.WG)
+//@ loop HermesSession.Run$1@"for idxLayer := 0; idxLayer < g.N; idxLayer++ {"
+//@   invariant range: 0 <= \i && \i <= g.N
+//@   invariant restored: forall(z, 0, \i, g.W[z] == g.W_Backup[z] && g.WMIN[z] == g.WMIN_Backup[z] && g.PORGES[z] == g.PORGES_Backup[z] && g.WNOR[z] == g.WNOR_Backup[z])
+//@ loop HermesSession.Run$1@"for z := 0; z < g.N; z++ { zNum := float64(z) + 1 if zNum >= g.GRW {"
+//@   invariant range: 0 <= \i && \i <= g.N
+//@   invariant sat: forall(z, 0, \i, real(z+1) >= g.GRW ==> g.WG[1][z] == g.W[z])
+
+// assignment of the layer parameters in Input, per route (explicit values of the soil file; pedotransfer functions)
+//@ region Input#soilparams from "for L := 1; L <= g.AZHO; L++ { lindex := L - 1 AD, err := Hydro(" to "for L := 1; L <= g.AZHO; L++ { lindex := L - 1 AD, err := Hydro("
+//@   serves C15
+//@   opaque Hydro
+//@   requires horizons: 1 <= g.AZHO && g.AZHO <= 10 && 1 <= g.N && g.N <= 20
+//@   requires explicit: forall(h, 0, 10, g.FKA[h] > 0 ==> 0 < g.WP[h] && g.WP[h] < g.FKA[h] && g.FKA[h] <= g.GPV[h] && g.GPV[h] < 100)
+//@   requires texture: g.PTF != 0 ==> forall(h, 0, 10, texdomain(g.CGEHALT[h], l.TON[h], l.SLUF[h]) && l.SSAND[h] == 100 - l.TON[h] - l.SLUF[h])
+//@   requires ptf: 0 <= g.PTF && g.PTF <= 4
+//@   after stmt "g.WNOR[LTindex] = g.FKA[lindex] / 100": assert explicitOrdered: 0 < g.WMIN[LTindex] && g.WMIN[LTindex] < g.W[LTindex] && g.W[LTindex] <= g.PORGES[LTindex] && g.PORGES[LTindex] < 1 && g.WNOR[LTindex] == g.W[LTindex]
+//@   after stmt "calcWRed(g.WP[lindex], g.FKA[lindex], g)": assert explicitThreshold: g.WMIN[LTindex] < g.WRED && g.WRED < g.W[LTindex]
+//@   after stmt "g.WNOR[LTindex] = g.W[LTindex]": assert ptfOrdered: 0 < g.WMIN[LTindex] && g.WMIN[LTindex] < g.W[LTindex] && g.W[LTindex] < 1 && g.WNOR[LTindex] == g.W[LTindex]
+//@   after stmt "calcWRed(g.WMIN[LTindex]*100, g.W[LTindex]*100, g)": assert ptfThreshold: g.WMIN[LTindex] < g.WRED && g.WRED < g.W[LTindex]
+//@ loop Input@"for L := 1; L <= g.AZHO; L++ { lindex := L - 1 AD, err := Hydro("
+//@   invariant range: 1 <= \i && \i <= g.AZHO+1
+//@   invariant frame: g.AZHO == pre(g.AZHO) && g.N == pre(g.N) && g.PTF == pre(g.PTF) && g.FKA == pre(g.FKA) && g.WP == pre(g.WP) && g.GPV == pre(g.GPV) && g.CGEHALT == pre(g.CGEHALT) && l.TON == pre(l.TON) && l.SLUF == pre(l.SLUF) && l.SSAND == pre(l.SSAND)
+//@ loop Input@"for LT := g.UKT[L-1] + 1; LT <= g.UKT[L]; LT++ { LTindex := LT - 1 g.AD[LTindex] = AD"
+//@   invariant frame: g.AZHO == pre(g.AZHO) && g.N == pre(g.N) && g.PTF == pre(g.PTF) && g.FKA == pre(g.FKA) && g.WP == pre(g.WP) && g.GPV == pre(g.GPV) && g.CGEHALT == pre(g.CGEHALT) && l.TON == pre(l.TON) && l.SLUF == pre(l.SLUF) && l.SSAND == pre(l.SSAND)
+
+// texture-table route: what Hydro stores for a horizon is the table entry of this call plus the organic-matter bonus
+// (in particular it does not depend on what an earlier call left in the arrays)
+//@ func Hydro
+//@   serves C15
+//@   ghost var tabfk real
+//@   ghost var tablim real
+//@   ghost var tabpor real
+//@   after stmt "g.PRGES[horizonIndex] = ValAsFloat(wa[": ghost tabpor = g.PRGES[horizonIndex]
+//@   after stmt "g.PRGES[horizonIndex] = ValAsFloat(wa[": ghost tabfk = local.FK[horizonIndex]
+//@   after stmt "g.PRGES[horizonIndex] = ValAsFloat(wa[": ghost tablim = g.LIM[horizonIndex]
+//@   after stmt "g.PRGES[horizonIndex] = ValAsFloat(wa[": assume tableUsableWater: g.LIM[horizonIndex] < local.FK[horizonIndex]
+//@   requires horizon: 1 <= horizon && horizon <= 10
+//@   requires density: 1 <= g.LD[horizon-1] && g.LD[horizon-1] <= 5
+//@   ensures table: isnil(err) ==> g.PRGES[horizon-1] == tabpor + KRG/100 && g.NORMFK[horizon-1] == tabfk && g.FELDW[horizon-1] == tabfk + KRR/100 && g.LIM[horizon-1] == tablim
+//@   ensures bonus: 0 <= KRG && KRG <= 14 && 0-2 <= KRR && KRR <= 13.5
